@@ -180,6 +180,121 @@ def check_fn(r, evs, B):
         B.F.violation("C16:heap-growth", "live Snoopy allocations grew from %d to %d over %d calls" % (first_live, last_live, r["ncalls"]), wit)
 
 
+
+# ------------------------------------------------------------------ second arm: error paths reached by injected syscall failures
+
+def inject_scenarios(work):
+    A = work + "/log"
+    allds = ",".join("%{" + d + "}" for d in ini_gen.ALL_DS)[:900]
+    return [
+        ("file/all", '[snoopy]\nmessage_format = "%s"\noutput = file:%s\n' % (allds, A), []),
+        ("file-template/cmdline", '[snoopy]\nmessage_format = "%%{cmdline}"\noutput = file:%s/t-%%{datetime:%%s}-%%{pid}\n' % work, []),
+        ("devlog/all", '[snoopy]\nmessage_format = "%s"\noutput = devlog\nsyslog_ident = "id-%%{username}"\n' % allds, []),
+        ("socket/default", '[snoopy]\noutput = socket:%s/sock\nfilter_chain = "exclude_spawns_of:x,y;only_uid:0"\n' % work, []),
+        ("stdout/tty-sources", '[snoopy]\nmessage_format = "%{tty} %{tty_username} %{login} %{rpname} %{cgroup:1} %{domain}"\noutput = stdout\n', ["stdin pty"]),
+        ("devtty/cmdline", '[snoopy]\nmessage_format = "%{cmdline} %{cwd} %{egroup}"\noutput = devtty\n', ["ctty"]),
+    ]
+
+
+def inject_run(arg):
+    import re
+    from checks.c03 import ERRNOS, SKIP
+    from vlib.drive import run_vdrive
+    bld, name, conf, pre, root, idx, per_pos = arg
+    work = os.path.join(root, "i%02d" % idx)
+    os.makedirs(work, exist_ok=True)
+    os.chmod(work, 0o777)
+    conf = conf.replace("WORKDIR", work)
+    F = Findings(PROP)
+    st = dict(inject_scenarios=1, injected=0, fired=0, inconclusive=0)
+    LINE = re.compile(r"^(?:\d+\s+)?(\w+)\((.*)$")
+
+    def script():
+        s = Script()
+        for p in pre:
+            s.raw(p)
+        s.raw("envset " + Script.vec([b"HOME=/root", b"LOGNAME=lg", b"TZ=UTC"]))
+        s.conf(conf.encode())
+        s.call(1, "execve", b"/bin/warm", [b"warm"], [b"E=1"], -1, 2)
+        s.raw("automark 1")
+        s.call(2, "execve", b"/bin/c16i", [b"c16i", b"arg"], [b"E=1"], -1, 2)
+        s.call(3, "execve", b"/bin/c16j", [b"c16j"], [b"E=1"], -1, 2)
+        return s.text()
+
+    def run(inject=None):
+        tr = os.path.join(work, "trace")
+        stopts = ["-o", tr, "-s", "60"]
+        if inject:
+            stopts += ["-e", "inject=" + inject]
+        res = run_vdrive(bld, script(), work, strace=stopts, timeout=60, heap=True, mtx=False)
+        with open(tr, "r", errors="replace") as f:
+            lines = f.read().splitlines()
+        # window of call 2: syscalls between its BEGIN marker and its ENTER marker
+        counts = {}
+        win = None
+        window = []
+        for l in lines:
+            m = LINE.match(l)
+            if not m:
+                continue
+            nm, rest = m.group(1), m.group(2)
+            counts[nm] = counts.get(nm, 0) + 1
+            if nm == "write" and rest.startswith("199,"):
+                if '\\"BEGIN\\",\\"id\\":2,' in rest:
+                    win = []
+                elif '\\"ENTER\\",\\"id\\":2}' in rest and win is not None:
+                    window = win
+                    win = None
+                continue
+            if win is not None:
+                win.append((counts[nm], nm, rest))
+        return res, window
+
+    res, base = run()
+    if not base:
+        raise Harness("injection arm: no call window found for scenario %s" % name)
+    targets = [(k, nm) for k, nm, _ in base if nm not in SKIP and nm != "close" and ERRNOS.get(nm)]
+    ei = 0
+    for k, nm in targets:
+        errs = ERRNOS[nm]
+        for e in (errs if per_pos == "all" else [errs[ei % len(errs)]]):
+            ei += 1
+            res2, w2 = run("%s:error=%s:when=%d" % (nm, e, k))
+            st["injected"] += 1
+            if not any("(INJECTED)" in rest for _, _, rest in w2):
+                st["inconclusive"] += 1
+                continue
+            st["fired"] += 1
+            ev = {(x["ev"], x.get("id")): x for x in res2.events if x["ev"] in ("BEGIN", "REAL", "END")}
+            wit = dict(scenario=name, config=conf, injection="%s:error=%s:when=%d" % (nm, e, k), window=[("%s(%s" % (a, b))[:140] for _, a, b in w2][-30:])
+            for cid in (2, 3):
+                b, rl, en = ev.get(("BEGIN", cid)), ev.get(("REAL", cid)), ev.get(("END", cid))
+                if not (b and rl and en):
+                    F.inconclusive_case("call %d incomplete after %s" % (cid, wit["injection"]))
+                    continue
+                for key in STATE_KEYS:
+                    for where, x in (("at-real-exec", rl), ("after-return", en)):
+                        if x.get(key) != b.get(key):
+                            detail = "%r -> %r" % (b.get(key), x.get(key))
+                            if key == "fds":
+                                bs, es = set(b[key].split("|")), set(x[key].split("|"))
+                                detail = "appeared %s, disappeared %s" % (sorted(es - bs), sorted(bs - es))
+                            F.violation("C16:inject:%s-changed:%s:%s" % (key, where, nm), "after %s on %s (scenario %s): %s differs %s: %s" % (e, nm, name, key, where, detail[:300]), wit)
+                hp = rl.get("heap")
+                if hp and hp["since_mark_snoopy"] > 0:
+                    fr = symbolize(bld, hp["blocks"][0]["bt"]) if hp["blocks"] else []
+                    site = next((f for f in fr if f and not f.startswith("?")), "?")
+                    F.violation("C16:inject:heap-live-at-real-exec:%s" % site.split("@")[0], "after %s on %s (scenario %s) %d block(s) / %d bytes allocated by Snoopy during the call are still live at the real exec (allocated via %s)" % (
+                        e, nm, name, hp["since_mark_snoopy"], hp["since_mark_snoopy_bytes"], fr[:4]), dict(wit, frames=fr))
+    rmtree(work)
+    return F, st
+
+
+def rmtree(d):
+    import shutil
+    shutil.rmtree(d, ignore_errors=True)
+
+
 def _script(r, B, s):
     return script_fn(r, B, s)
 
@@ -212,6 +327,19 @@ def main():
         merge_findings(F, f)
         for k, x in st.items():
             tot["%s.%s" % (v, k)] = x
+    # second arm: error paths forced by injected syscall failures (plain build)
+    from vlib.common import mkwork, rmwork
+    from vlib.drive import pmap
+    bld = vbuild.build("plain")
+    root = mkwork("c16i")
+    jobs = [(bld, n_, c_, p_, root, i, 1 if tr == "quick" else "all") for i, (n_, c_, p_) in enumerate(inject_scenarios("WORKDIR"))]
+    for f, st in pmap(inject_run, jobs, 8):
+        merge_findings(F, f)
+        for k, x in st.items():
+            tot["inject." + k] = tot.get("inject." + k, 0) + x
+    rmwork(root)
+    if (tot.get("inject.fired", 0) == 0) and F.n_unlisted() == 0:
+        raise Harness("injection arm: no injected fault fired: %s" % tot)
     for v in builds:
         if (tot.get(v + ".heap_samples", 0) == 0) and F.n_unlisted() == 0:
             raise Harness("no heap samples for %s" % v)
@@ -227,6 +355,6 @@ def main():
         inconclusive=died, violation_keys=sorted(F.viol)),
         time.time() - t0, F.n_unlisted(),
         ["heap blocks are attributed to Snoopy when one of the first 10 backtrace frames lies in libsnoopy.so; libc one-time caches are absorbed by the warm-up call",
-         "strace-injected error paths are exercised by the C03 machinery (checks/c03.py) with the same residue oracle"])
+         "second arm: every I/O syscall (except close, whose injected failure leaves the descriptor open by construction) between wrapper entry and real exec is failed once under strace, same residue oracle"])
     log("[C16] %d runs %s %.1fs" % (len(runs), tot, time.time() - t0))
     return rc
